@@ -275,6 +275,30 @@ type ActionMplsTtl struct {
 	pad     []byte // 3bytes
 }
 
+func (a *ActionMplsTtl) Len() (n uint16) {
+	return a.ActionHeader.Len() + 4
+}
+
+func (a *ActionMplsTtl) MarshalBinary() (data []byte, err error) {
+	data, err = a.ActionHeader.MarshalBinary()
+
+	bytes := make([]byte, 4)
+	bytes[0] = a.MplsTtl
+
+	data = append(data, bytes...)
+	return
+}
+
+func (a *ActionMplsTtl) UnmarshalBinary(data []byte) error {
+	if len(data) < int(a.Len()) {
+		return errors.New("The []byte the wrong size to unmarshal an " +
+			"ActionMplsTtl message.")
+	}
+	a.ActionHeader.UnmarshalBinary(data[:4])
+	a.MplsTtl = data[4]
+	return nil
+}
+
 type ActionDecNwTtl struct {
 	ActionHeader
 	pad []byte // 4bytes
@@ -312,6 +336,30 @@ type ActionNwTtl struct {
 	ActionHeader
 	NwTtl uint8
 	pad   []byte // 3bytes
+}
+
+func (a *ActionNwTtl) Len() (n uint16) {
+	return a.ActionHeader.Len() + 4
+}
+
+func (a *ActionNwTtl) MarshalBinary() (data []byte, err error) {
+	data, err = a.ActionHeader.MarshalBinary()
+
+	bytes := make([]byte, 4)
+	bytes[0] = a.NwTtl
+
+	data = append(data, bytes...)
+	return
+}
+
+func (a *ActionNwTtl) UnmarshalBinary(data []byte) error {
+	if len(data) < int(a.Len()) {
+		return errors.New("The []byte the wrong size to unmarshal an " +
+			"ActionNwTtl message.")
+	}
+	a.ActionHeader.UnmarshalBinary(data[:4])
+	a.NwTtl = data[4]
+	return nil
 }
 
 type ActionPush struct {
